@@ -365,12 +365,13 @@ func NewWALDecoder(rd io.Reader) *WALDecoder {
 func (dec *WALDecoder) Decode() (*TimedWALMessage, error) {
 	b := make([]byte, 4)
 
-	_, err := dec.rd.Read(b)
-	if errors.Is(err, io.EOF) {
+	n, err := dec.rd.Read(b)
+	if n == 0 && errors.Is(err, io.EOF) {
 		return nil, err
 	}
-	if err != nil {
-		return nil, DataCorruptionError{fmt.Errorf("failed to read checksum: %v", err)}
+	if n < len(b) || (err != nil && !errors.Is(err, io.EOF)) {
+		// a torn checksum (1-3 bytes left by a crash) is corruption, not a clean end of the log
+		return nil, DataCorruptionError{fmt.Errorf("failed to read checksum: %v (read: %d, wanted: %d)", err, n, len(b))}
 	}
 	crc := binary.BigEndian.Uint32(b)
 
@@ -389,7 +390,7 @@ func (dec *WALDecoder) Decode() (*TimedWALMessage, error) {
 	}
 
 	data := make([]byte, length)
-	n, err := dec.rd.Read(data)
+	n, err = dec.rd.Read(data)
 	if err != nil {
 		return nil, DataCorruptionError{fmt.Errorf("failed to read data: %v (read: %d, wanted: %d)", err, n, length)}
 	}
